@@ -6,7 +6,23 @@ from fibertree import Fiber, Payload, Tensor  # noqa: E402
 from . import proj  # noqa: E402
 
 
+def warm_up(f):
+    """every traversal and query once: whatever the fiber might remember about its extent, it remembers now"""
+    _ = f.getActive(), f.getShape(), f.estimateShape(), f.maxCoord(), f.minCoord(), f.isEmpty(), len(f)
+    for it in (f.iterOccupancy(), f.iterActive(), f.iterActiveShape(), f.iterShape(), iter(f), f.iterActiveShapeRef() if False else ()):
+        for _x in it:
+            pass
+
+
 def build(tree, case, oids, name="T"):
+    w = case.get("warm")
+    if w is not None and name == "T" and len(tree["e"]) > w:
+        # the fiber is built from its first w elements, traversed and queried, and only then grown to the case's content by appends
+        f, pf = build({"k": "F", "e": tree["e"][:w]}, dict(case, warm=None), oids, name)
+        warm_up(f)
+        for c, p in tree["e"][w:]:
+            f.append(c, p["v"])
+        return f, pf
     shape = case.get("shape", 6)
     act = tuple(case["act"]) if case.get("hasact") else None
     if case.get("emb") == "tensor1":
